@@ -3,15 +3,29 @@
 (*       missed                                                             *)
 EXTENDS ObsBase
 Ids == 1..16
-VARIABLES tid, l, flg, done, now, waits, lvl, bad
-vars == <<tid, l, flg, done, now, waits, lvl, bad>>
+VARIABLES tid, l, flg, done, now, waits, lvl, bad, acq, rel, held, taint, unw
+vars == <<tid, l, flg, done, now, waits, lvl, bad, acq, rel, held, taint, unw>>
+\* lvl[p]: level of supply p as committed by completed operations; acq / rel: borrow blocks being entered / left
+\* ([a, p, amt]: the transfer happens somewhere between the begin and the return event); held[a]: blocks activity
+\* a is inside, innermost last; taint: supplies whose level the events no longer determine (interrupted transfers)
 \* waits: set of [a, c] - awaits in progress;  flg / done / now mirror the atoms from the observed events
 Init == /\ tid \in 1..N /\ l = 1 /\ bad = "" /\ now = 0
         /\ flg = [f \in 1..4 |-> FALSE] /\ done = {} /\ waits = {} /\ lvl = [p \in 1..2 |-> 0]
+        /\ acq = {} /\ rel = {} /\ held = [i \in Ids |-> <<>>] /\ taint = {1, 2} /\ unw = {}
+RECURSIVE SumAmt(_)
+SumAmt(S) == IF S = {} THEN 0 ELSE LET x == CHOOSE y \in S : TRUE IN x.amt + SumAmt(S \ {x})
+LvLo(p) == lvl[p] - SumAmt({x \in acq : x.p = p})
+RECURSIVE SumSeq(_, _)
+SumSeq(q, p) == IF q = <<>> THEN 0 ELSE (IF Head(q).p = p THEN Head(q).amt ELSE 0) + SumSeq(Tail(q), p)
+RECURSIVE SumUnw(_, _)
+SumUnw(S, p) == IF S = {} THEN 0 ELSE LET a == CHOOSE y \in S : TRUE IN SumSeq(held[a], p) + SumUnw(S \ {a}, p)
+LvHi(p) == lvl[p] + SumAmt({x \in rel : x.p = p}) + SumUnw(unw, p)
 
 \* independent evaluator of condition expressions over the observed atom values
-RECURSIVE Ev(_, _, _, _)
-Ev(c, fl, dn, t) ==
+\* sure = TRUE: the condition certainly holds; sure = FALSE: it possibly holds (they differ only for resource levels
+\* while a borrow block is being entered or left)
+RECURSIVE EvM(_, _, _, _, _)
+EvM(c, fl, dn, t, sure) ==
   \* (resource-level comparisons read the mirrored level `lvl`)
   CASE c[1] = "flag"  -> fl[c[2]]
     [] c[1] = "nflag" -> ~fl[c[2]]
@@ -22,25 +36,67 @@ Ev(c, fl, dn, t) ==
     [] c[1] = "eq"    -> t = c[2]
     [] c[1] = "inst"  -> TRUE
     [] c[1] = "etern" -> FALSE
-    [] c[1] = "lvl"   -> lvl[c[2]] >= c[3]
-    [] c[1] = "all"   -> \A i \in 1..Len(c[2]) : Ev(c[2][i], fl, dn, t)
-    [] c[1] = "any"   -> \E i \in 1..Len(c[2]) : Ev(c[2][i], fl, dn, t)
+    [] c[1] = "lvl"   -> IF c[2] \in taint THEN ~sure ELSE (IF sure THEN LvLo(c[2]) ELSE LvHi(c[2])) >= c[3]
+    [] c[1] = "all"   -> \A i \in 1..Len(c[2]) : EvM(c[2][i], fl, dn, t, sure)
+    [] c[1] = "any"   -> \E i \in 1..Len(c[2]) : EvM(c[2][i], fl, dn, t, sure)
     [] OTHER -> FALSE
+Ev(c, fl, dn, t) == EvM(c, fl, dn, t, TRUE)
+Poss(c, fl, dn, t) == EvM(c, fl, dn, t, FALSE)
 Nested(c) == c[1] \in {"all", "any"} /\ \E i \in 1..Len(c[2]) : c[2][i][1] \in {"all", "any"}
 CondOf(e) == IF e.op = "await_f" THEN (IF e.v THEN <<"flag", e.f>> ELSE <<"nflag", e.f>>)
              ELSE IF e.op = "await_lvl" THEN <<"lvl", e.p, e.v>> ELSE e.c
 
 Fail(c) == bad' = c /\ UNCHANGED <<flg, done, now, waits>>
+DropLast1(q) == SubSeq(q, 1, Len(q) - 1)
+\* the amount of the call activity a has in progress (its latest begin event)
+RECURSIVE PendAt(_, _)
+PendAt(a, i) == IF i < 1 THEN 0 ELSE LET e == Traces[tid][i] IN
+                IF e.e = "b" /\ F(e, "a", 0) = a THEN F(e, "amt", 0) ELSE PendAt(a, i - 1)
+Pend(a) == PendAt(a, l - 1)
 GetL(q, i) == IF i <= Len(q) THEN q[i] ELSE 0
 Step ==
   /\ l <= Len(Traces[tid]) /\ bad = ""
   /\ l' = l + 1 /\ UNCHANGED tid
-  /\ lvl' = LET e0 == Traces[tid][l] o == F(e0, "op", "") IN
-            IF e0.e = "init" THEN [p \in 1..2 |-> GetL(e0.res, p)]
-            ELSE IF e0.e = "b" /\ o = "inc" /\ e0.p \in 1..2 THEN [lvl EXCEPT ![e0.p] = @ + e0.amt]
-            ELSE IF e0.e = "b" /\ o = "dec" /\ e0.p \in 1..2 THEN [lvl EXCEPT ![e0.p] = @ - e0.amt]
-            ELSE IF e0.e = "b" /\ o = "rset" /\ e0.p \in 1..2 THEN [lvl EXCEPT ![e0.p] = e0.amt]
-            ELSE lvl
+  /\ LET e0 == Traces[tid][l] o == F(e0, "op", "") a0 == F(e0, "a", 0) p0 == F(e0, "p", F(e0, "id", 0))
+         mine == {x \in acq : x.a = a0}  ret == {x \in rel : x.a = a0}
+         isres == F(e0, "blk", "") = "res"
+         top == IF a0 \in Ids /\ held[a0] # <<>> THEN held[a0][Len(held[a0])] ELSE [p |-> p0, amt |-> 0]
+         Anon(S) == {[x EXCEPT !.a = 0] : x \in S} IN
+     \* changes of the level itself take effect with the call (and not at all if the call is refused)
+     /\ lvl' = IF e0.e = "init" THEN [p \in 1..2 |-> GetL(e0.res, p)]
+               ELSE IF p0 \notin 1..2 THEN lvl
+               ELSE IF e0.e = "b" /\ o = "inc" THEN [lvl EXCEPT ![p0] = @ + e0.amt]
+               ELSE IF e0.e = "b" /\ o = "dec" THEN [lvl EXCEPT ![p0] = @ - e0.amt]
+               ELSE IF e0.e = "b" /\ o = "rset" THEN [lvl EXCEPT ![p0] = e0.amt]
+               ELSE IF e0.e = "x" /\ o = "dec" THEN [lvl EXCEPT ![p0] = @ + Pend(a0)]
+               ELSE IF e0.e = "x" /\ o = "inc" THEN [lvl EXCEPT ![p0] = @ - Pend(a0)]
+               ELSE IF e0.e = "r" /\ o \in {"borrow", "claim"} THEN [lvl EXCEPT ![p0] = @ - SumAmt(mine)]
+               ELSE IF e0.e = "r" /\ o = "leave" /\ isres THEN [lvl EXCEPT ![p0] = @ + SumAmt(ret)]
+               ELSE lvl
+     \* a block whose entering / leaving is cut short stays undetermined for good (a = 0: nobody completes it)
+     /\ acq' = IF e0.e = "b" /\ o \in {"borrow", "claim"} THEN acq \cup {[n |-> l, a |-> a0, p |-> p0, amt |-> e0.amt]}
+               ELSE IF e0.e \in {"r", "x"} /\ o \in {"borrow", "claim"} THEN acq \ mine
+               ELSE IF e0.e = "u" /\ o \in {"borrow", "claim"} THEN (acq \ mine) \cup Anon(mine)
+               ELSE acq
+     /\ held' = IF a0 \notin Ids THEN held
+                ELSE IF e0.e = "r" /\ o \in {"borrow", "claim"} /\ mine # {}
+                     THEN [held EXCEPT ![a0] = Append(@, [p |-> p0, amt |-> SumAmt(mine)])]
+                ELSE IF isres /\ held[a0] # <<>> /\ ((e0.e = "b" /\ o = "leave") \/ (e0.e = "u" /\ o = "body"))
+                     THEN [held EXCEPT ![a0] = DropLast1(@)]
+                ELSE held
+     /\ rel' = IF e0.e = "b" /\ o = "leave" /\ isres THEN rel \cup {[n |-> l, a |-> a0, p |-> top.p, amt |-> top.amt]}
+               ELSE IF e0.e = "u" /\ o = "body" /\ isres THEN rel \cup {[n |-> l, a |-> 0, p |-> top.p, amt |-> top.amt]}
+               ELSE IF e0.e = "r" /\ o = "leave" /\ isres THEN rel \ ret
+               ELSE IF e0.e = "u" /\ o = "leave" /\ isres THEN (rel \ ret) \cup Anon(ret)
+               ELSE rel
+     \* activities an exception / cancellation is passing through: their blocks may be giving back already
+     /\ unw' = IF a0 \notin Ids THEN unw
+               ELSE IF e0.e = "u" \/ (e0.e = "b" /\ o = "raise") THEN unw \cup {a0}
+               ELSE IF e0.e \in {"b", "end"} THEN unw \ {a0} ELSE unw
+     \* a level change that is cut short leaves the level undetermined
+     /\ taint' = IF e0.e = "init" THEN {p \in 1..2 : p > Len(e0.res)}
+                 ELSE IF (e0.e = "u" /\ o \in {"inc", "dec", "rset"}) \/ (e0.e = "x" /\ o = "rset") THEN taint \cup {p0}
+                 ELSE taint
   /\ LET e == Traces[tid][l] a == F(e, "a", 0) op == F(e, "op", "") t == F(e, "t", now)
          \* waiters whose condition holds at the END of the time step that is now over
          stuck == {w \in waits : Ev(w.c, flg, done, now)} IN
@@ -57,7 +113,7 @@ Step ==
                waits' = waits \cup {[a |-> a, c |-> CondOf(e)]} /\ UNCHANGED <<flg, done, bad>>
           [] e.e = "r" /\ op \in {"await_c", "await_f", "await_lvl"} ->
                LET ws == {w \in waits : w.a = a} IN
-               IF \E w \in ws : ~Ev(w.c, flg, done, t) THEN Fail("C08.false_at_resume")
+               IF \E w \in ws : ~Poss(w.c, flg, done, t) THEN Fail("C08.false_at_resume")
                ELSE waits' = waits \ ws /\ UNCHANGED <<flg, done, bad>>
           [] e.e \in {"x", "u"} /\ op \in {"await_c", "await_f", "await_lvl"} ->
                waits' = {w \in waits : w.a # a} /\ UNCHANGED <<flg, done, bad>>
